@@ -237,9 +237,112 @@ Proof.
   destruct (ins_loop_spec vs s1 a (firstn a (col s)) (skipn b (col s)) W1 C) as [W2 [news [E1 [E2 E3]]]].
   { rewrite firstn_length; lia. }
   split; auto. split; auto.
-  unfold to_list. rewrite E1, !map_app, E2, firstn_map, skipn_map.
+  cbn [snd]. unfold to_list. rewrite E1, !map_app, E2, firstn_map, skipn_map.
   destruct W as [_ B].
   f_equal; [|f_equal]; apply map_ext_in'; intros o Ho; rewrite E3, P; auto; rewrite N; apply B.
   - eapply In_firstn'; eauto.
   - eapply In_skipn'; eauto.
+Qed.
+
+Lemma delslice_wf : forall s sl c, wf s -> py_delslice (col s) sl = Ok c -> wf (with_col s c).
+Proof.
+  intros s sl c W H.
+  destruct (py_getslice (col s) sl) as [g|e] eqn:G.
+  - pose proof (getslice_delslice_perm nat (col s) sl g c G H) as P.
+    apply wf_with_col; auto.
+    + destruct W as [ND _]. eapply Permutation.Permutation_NoDup in ND; [|exact P].
+      clear -ND. induction g; simpl in *; auto. inversion ND; auto.
+    + intros o Ho. eapply Permutation.Permutation_in; [apply Permutation.Permutation_sym, P|].
+      apply in_or_app; auto.
+  - apply getslice_delslice_same_error in G. congruence.
+Qed.
+
+Lemma imul_succ : forall (l : list Z) n, (1 < n)%Z -> py_imul l n = l ++ py_imul l (n - 1)%Z.
+Proof.
+  intros l n H. unfold py_imul.
+  destruct (n <=? 0)%Z eqn:E1; [lia|]. destruct (n - 1 <=? 0)%Z eqn:E2; [lia|].
+  replace (Z.to_nat n) with (S (Z.to_nat (n - 1))) by lia. reflexivity.
+Qed.
+
+Lemma clamp_in : forall len v, (0 <= v <= len)%Z -> clamp_index 1 len v = v.
+Proof.
+  intros len v H. unfold clamp_index.
+  destruct (v <? 0)%Z eqn:E; [lia|]. destruct (len <=? v)%Z eqn:E2; simpl; lia.
+Qed.
+
+Theorem proxy_list_is_view : forall s o, wf s -> pl_guard s o = true ->
+  wf (snd (pl_step s o)) /\
+  (fst (pl_step s o), to_list (snd (pl_step s o))) = plop_ref (to_list s) o.
+Proof.
+  intros s o W G. destruct o as [v|vs|i v|oi|v|i v|sl vs|i|sl| |vs|n| |]; cbn [pl_step plop_ref py_list_op fst snd].
+  - destruct (append_view s v W) as [W1 E]. split; auto. rewrite E; reflexivity.
+  - destruct (extend_view vs s W) as [W1 E]. split; auto. simpl. rewrite E; reflexivity.
+  - destruct (insert_view s i v W) as [W1 E]. split; auto. rewrite E; reflexivity.
+  - unfold to_list. rewrite pop_map.
+    destruct (py_pop (col s) (match oi with Some i => i | None => (-1)%Z end)) as [[x c]|e] eqn:E; simpl; auto.
+    split; auto. unfold py_pop in E. destruct (norm_index _ (zlen (col s))); [|discriminate].
+    destruct (nth_error (col s) n); inversion E; subst.
+    apply wf_with_col; auto. apply del_nth_NoDup, W. intros o; apply del_nth_In.
+  - unfold to_list, py_remove. rewrite (remove_first_map (pval s) v (col s) 0).
+    destruct (find_val (pval s) v (col s) 0) as [k|]; simpl; auto.
+    rewrite Nat.sub_0_r. split; auto.
+    apply wf_with_col; auto. apply del_nth_NoDup, W. intros o; apply del_nth_In.
+  - unfold to_list, py_setitem, py_getitem. rewrite zlen_map.
+    destruct (norm_index i (zlen (col s))) as [n|] eqn:N; simpl; auto.
+    pose proof (norm_index_lt _ _ _ _ N) as Hlt.
+    destruct (nth_error (col s) n) as [o|] eqn:E; [|apply nth_error_None in E; lia].
+    simpl. split; [exact W|]. f_equal. apply map_set_nth_updf; auto. apply W.
+  - (* slice assignment inside the guard *)
+    simpl in G.
+    assert (HS : sstep sl = None \/ sstep sl = Some 1%Z).
+    { destruct (sstep sl) as [[|[| |]|]|]; auto; discriminate. }
+    set (a := match sstart sl with None => 0%Z | Some x => x end) in *.
+    set (b := match sstop sl with None => zlen (col s) | Some x => x end) in *.
+    assert (GB : (0 <= a /\ a <= b /\ b <= zlen (col s))%Z).
+    { destruct HS as [HS|HS]; rewrite HS in G;
+        apply andb_prop in G; destruct G as [G G3]; apply andb_prop in G; destruct G as [G1 G2]; lia. }
+    assert (NORM : pl_setslice s sl vs =
+                   pl_setslice s (mkslice (Some (Z.of_nat (Z.to_nat a))) (Some (Z.of_nat (Z.to_nat b))) None) vs).
+    { unfold pl_setslice. simpl. rewrite !Z2Nat.id by lia.
+      assert (E1 : match sstop sl with
+                   | None => zlen (col s)
+                   | Some t => if (t <? 0)%Z then (zlen (col s) + t)%Z else t end = b).
+      { unfold b. destruct (sstop sl) as [t|]; auto. destruct (t <? 0)%Z eqn:E; auto. unfold b in GB. lia. }
+      assert (E2 : or_dflt (sstep sl) 1%Z = 1%Z) by (destruct HS as [-> | ->]; reflexivity).
+      assert (E3 : or_dflt (sstart sl) 0%Z = a).
+      { unfold a, or_dflt. destruct (sstart sl) as [t|]; auto. destruct (Z.eqb_spec t 0); auto. }
+      assert (E4 : (if (b <? 0)%Z then (zlen (col s) + b)%Z else b) = b) by (destruct (b <? 0)%Z eqn:E; lia).
+      assert (E5 : (if (a =? 0)%Z then 0%Z else a) = a) by (destruct (Z.eqb_spec a 0); lia).
+      rewrite E1, E2, E3, E4, !E5. reflexivity. }
+    rewrite NORM.
+    destruct (setslice_view s (Z.to_nat a) (Z.to_nat b) vs W) as (R & W1 & E).
+    { unfold zlen in GB. lia. }
+    split; auto.
+    assert (ADJ : adjust sl (zlen (to_list s)) = Ok (a, b, 1%Z)).
+    { unfold adjust, to_list. rewrite zlen_map.
+      assert (St : match sstep sl with None => 1%Z | Some x => x end = 1%Z) by (destruct HS as [-> | ->]; reflexivity).
+      rewrite St. simpl.
+      f_equal. f_equal; [f_equal|].
+      - unfold a. destruct (sstart sl) as [t|]; auto. apply clamp_in. unfold a in GB. lia.
+      - unfold b. destruct (sstop sl) as [t|]; auto. apply clamp_in. unfold b, a in GB. lia. }
+    rewrite ADJ. cbn [materialise]. unfold py_setslice. rewrite ADJ. simpl.
+    rewrite Z.max_r by lia.
+    destruct (pl_setslice s _ vs) as [r s']; simpl in *. subst r. rewrite E. reflexivity.
+  - destruct (delitem_view s i W) as [W1 E]. split; auto.
+    destruct (pl_delitem s i) as [r s'], (py_delitem (to_list s) i) as [l'|e']; simpl in *;
+      destruct r; try contradiction; try (destruct E; subst); auto.
+  - unfold to_list. rewrite delslice_map.
+    destruct (py_delslice (col s) sl) as [c|e] eqn:E; simpl; auto.
+    split; auto. eapply delslice_wf; eauto.
+  - split; [apply wf_with_col; auto; [constructor|intros o []]|reflexivity].
+  - destruct (extend_view vs s W) as [W1 E]. split; auto. simpl. rewrite E; reflexivity.
+  - simpl in G. apply Z.leb_le in G.
+    destruct (Z.eqb_spec n 0).
+    + subst. simpl. split; [apply wf_with_col; auto; [constructor|intros o []]|reflexivity].
+    + destruct (1 <? n)%Z eqn:E1; simpl.
+      * destruct (extend_view (py_imul (to_list s) (n - 1)) s W) as [W1 E]. split; auto.
+        rewrite E. rewrite <- imul_succ by lia. reflexivity.
+      * split; auto. assert (n = 1%Z) by lia. subst. unfold py_imul. simpl. rewrite app_nil_r. reflexivity.
+  - discriminate.
+  - discriminate.
 Qed.
